@@ -61,14 +61,15 @@ static uint64_t e2m_hash(const e2_model *m)
 }
 
 /* ---- start states ---- */
-static const char *E2_PARSED[4] = {
+static const char *E2_PARSED[5] = {
   "x=1\n[A]\ny=2\n",
   "x=1\ny=5\nx=2\n[E]\n[A]\nx=1\n",     /* duplicate group-less key with another key between the two definitions, empty section */
   "[A]\nx=1\n[B]\nx=1\n[A]\nz=2\n",     /* re-opened section */
   "x=\n[A]\nxy=\nx=1\n",                  /* (start 8, used by C11 only) keys that are present and have no value */
+  "x=1\n",                                /* (start 9, C11 only) exactly one entry: the parser allocates exactly what it needs, the first new key has to grow the array from 1 */
 };
-static const char *E2_STARTN[9] = { "econf_newKeyFile('=','#')", "econf_newIniFile()", "econf_newKeyFile_with_options(\"\")",
-  "parse(x=1|[A]|y=2)", "parse(x=1|y=5|x=2|[E]|[A]|x=1)", "parse([A]|x=1|[B]|x=1|[A]|z=2)", "newKeyFile+7 keys in [C]", "newKeyFile+8 keys in [C]", "parse(x=|[A]|xy=|x=1)" };
+static const char *E2_STARTN[10] = { "econf_newKeyFile('=','#')", "econf_newIniFile()", "econf_newKeyFile_with_options(\"\")",
+  "parse(x=1|[A]|y=2)", "parse(x=1|y=5|x=2|[E]|[A]|x=1)", "parse([A]|x=1|[B]|x=1|[A]|z=2)", "newKeyFile+7 keys in [C]", "newKeyFile+8 keys in [C]", "parse(x=|[A]|xy=|x=1)", "parse(x=1)" };
 
 static econf_file *e2_start(int s, e2_model *m)
 {
@@ -78,14 +79,15 @@ static econf_file *e2_start(int s, e2_model *m)
   else if (s == 1) rc = econf_newIniFile(&kf);
   else if (s == 2) rc = econf_newKeyFile_with_options(&kf, "");
   else {
-    static pid_t written[4];      /* forked workers have their own scratch directory */
+    static pid_t written[5];      /* forked workers have their own scratch directory */
     char p[400]; snprintf(p, sizeof p, "%s/start%d.conf", mc_work, s);
-    int pi = s == 8 ? 3 : s - 3;
+    int pi = s >= 8 ? s - 5 : s - 3;
     if (written[pi] != getpid()) { mc_write_file(p, E2_PARSED[pi], strlen(E2_PARSED[pi])); written[pi] = getpid(); }
     rc = econf_readFile(&kf, p, "=", "#");
     if (s == 3) { e2m_append(m, NULL, "x", "1"); e2m_append(m, "A", "y", "2"); }
     if (s == 4) { e2m_append(m, NULL, "x", "1"); e2m_append(m, NULL, "y", "5"); e2m_append(m, NULL, "x", "2"); e2m_addsec(m, "E"); e2m_append(m, "A", "x", "1"); }
     if (s == 5) { e2m_append(m, "A", "x", "1"); e2m_append(m, "B", "x", "1"); e2m_append(m, "A", "z", "2"); }
+    if (s == 9) e2m_append(m, NULL, "x", "1");
     if (s == 8) { e2m_append(m, NULL, "x", NULL); e2m_append(m, "A", "xy", NULL); e2m_append(m, "A", "x", "1"); }
   }
   mc_st->libcalls++;
